@@ -272,6 +272,12 @@ static J plan_c07(uint64_t seed, const std::string &tier, bool secrets, const st
     if (x < 62) {
       Req r;
       if (!issued.empty() && g.chance(3, 10)) r = issued[g.below(issued.size())];           // same request again, later, elsewhere
+      else if (!issued.empty() && g.chance(1, 4)) {
+        // same method as the previous request, other parameters, back to back: what a cached parse would need
+        const Req &prev = issued.back(); r = valid_req(g, pool, secrets, 3);
+        for (int tries = 0; tries < 60 && (r.m != prev.m || r.st == prev.st); tries++) r = valid_req(g, pool, secrets, 3);
+        if (g.chance(1, 2)) r.ph = prev.ph;
+      }
       else if (g.chance(1, 4)) r = invalid_req(g, pool, secrets);
       else r = valid_req(g, pool, secrets, 2);
       issued.push_back(r);
